@@ -29,6 +29,10 @@ CONFIGS = [
     # multi-byte units, stdout and stderr, single print and fast print loops): everything, or all but what
     # few flusher passes took, is left to the final drain
     ("big_output", {}), ("big_output", {"flusher_take_send": 400}), ("big_output", {"before_stop": 150}),
+    # pipelining client: evals + close (+ later requests) sent back to back; every request sent gets exactly one
+    # final `done`, also those still queued (before_done holds the worker on the first request so that the
+    # rest is queued when the close is handled) or just dequeued (after_dequeue) at that moment
+    ("pipelined_close", {}), ("pipelined_close", {"before_done": 300}), ("pipelined_close", {"after_dequeue": 200}),
 ]
 
 
